@@ -9,6 +9,13 @@ verus! {
 #[verifier::external_body]
 pub struct ExParseIntError(core::num::ParseIntError);
 
+// TRUSTED[fromstr-trait-declared]: declares std::str::FromStr (name and associated Err type only) so that `parse` can be given a specification.
+#[verifier::external_trait_specification]
+pub trait ExFromStr: Sized {
+    type ExternalTraitSpecificationFor: std::str::FromStr;
+    type Err;
+}
+
 /// the value `s.parse::<F>()` yields when it succeeds (uninterpreted: which texts parse, and to what, is std's)
 pub uninterp spec fn parse_spec<F>(s: Seq<char>) -> Option<F>;
 
